@@ -72,6 +72,7 @@ EIG_SEP = 0.05
 H_REL = (1e-6, 2.5e-7)  # finite-difference steps: |h D| / |H|
 SENS_FLOOR = 1e-8     # a pole is judged only if (df/f)^2 >= SENS_FLOOR * sum_k (|T_k|/|H|)^2
 CLASS_RTOL = 1e-6     # same code on the same numbers: only summation order (array layout) may differ
+SG_GAPS = (1.5e-3, 4e-3, 9e-3)   # designed relative gap between two consecutive RETAINED singular values (all legal: >= SV_GAP)
 N_BASE = 2941         # N = Ndat - 2 br - 1; 2941 = 49*60 + 1  ->  N mod nb = 1 for nb in 2, 3, 4, 5, 6, 10, 12, 15, 20
 
 
@@ -496,6 +497,9 @@ def run_case(seed, c):
     elif c.get("tk") is not None:
         # likewise for the factor-dtype region
         t.outcomes = collections.Counter({(k if k.startswith("tk:") else "tk/" + k): v for k, v in t.outcomes.items()})
+    elif c.get("sg") is not None:
+        # likewise for the designed-singular-value-gap region
+        t.outcomes = collections.Counter({(k if k.startswith("sg:") else "sg/" + k): v for k, v in t.outcomes.items()})
     return t
 
 
@@ -508,9 +512,10 @@ def _run_case(seed, c):
     var = c.get("var", 0)
     eq = tuple(c["eq"]) if c.get("eq") is not None else None       # (coincidence variant, offset index) or None
     tk = tuple(c["tk"]) if c.get("tk") is not None else None       # (kind of whole-number factor, dtype of the array) or None
+    sg = tuple(c["sg"]) if c.get("sg") is not None else None       # (index i of the upper singular value, gap index) or None
     r = len(refs)
     case = dict(c, seed=seed)
-    cid = (fam[0], l, refs, br, n, ncol, var) + (("eq",) + eq if eq else ()) + (("tk",) + tk if tk else ())
+    cid = (fam[0], l, refs, br, n, ncol, var) + (("eq",) + eq if eq else ()) + (("tk",) + tk if tk else ()) + (("sg",) + sg if sg else ())
 
     # the overall level of the Hankel matrix / of the records is free (variances relative to f^2 are scale invariant): unit level,
     # and a very small one (nanometre displacements in metres) on every second lattice point
@@ -541,6 +546,19 @@ def _run_case(seed, c):
             T = payload.normal(seed, f"c17/eq/T/{l}/{refs}/{br}/{n}/{eqv}", (H.size, 20))[:, :ncol] * 1e-3 * np.linalg.norm(H) / np.sqrt(H.size)
         else:
             H = (level ** 2) * hankel_exact(seed, l, refs, br, n, var)
+            if sg:
+                # two consecutive retained singular values a stated small (legal) relative gap apart: the matrix is re-assembled from its own
+                # singular vectors with sigma_{i+1} := sigma_i (1 - gap); everything else (guards, reference, tolerances) as elsewhere
+                i_sg, g_sg = sg[0], SG_GAPS[sg[1]]
+                U_, s_, Vt_ = np.linalg.svd(H, full_matrices=False)
+                s2_ = s_.copy()
+                s2_[i_sg + 1] = s_[i_sg] * (1 - g_sg)
+                t.outcomes["sg:cases"] += 1
+                if not (i_sg + 1 <= n - 1 and s2_[i_sg + 1] > s2_[i_sg + 2] * (1 + 10 * SV_GAP)):
+                    t.not_judged += 1
+                    t.outcomes["sg:gap-not-designable:not-judged"] += 1
+                    return t
+                H = (U_ * s2_) @ Vt_
             T = payload.normal(seed, f"c17/T/{l}/{refs}/{br}/{n}/{var}", (H.size, 20))[:, :ncol] * 1e-3 * np.linalg.norm(H) / np.sqrt(H.size)
             if tk:
                 # the same whole numbers, handed in as an array of the stated dtype (the cast is exact by design: verified on the values)
@@ -690,6 +708,12 @@ def _run_case(seed, c):
         t.nontrivial.add(cid)
         t.outcomes[f"{fam}:judged"] += 1
         t.outcomes[f"columns:{ncol}"] += 1
+        if sg:
+            # the order columns that retain BOTH close singular values are k >= i+2; were any of them judged?
+            if any(cells[:, k].any() for k in range(sg[0] + 2, n + 1)):
+                t.outcomes[f"sg:gap:{SG_GAPS[sg[1]]:g}:judged"] += 1
+                t.outcomes[f"sg:pair-index:{'first' if sg[0] == 0 else 'last' if sg[0] == n - 2 else 'inner'}:judged"] += 1
+                t.err("sg_designed_gap_achieved_rel_error", abs((1 - g_sg) - np.linalg.svd(H, compute_uv=False)[sg[0] + 1] / np.linalg.svd(H, compute_uv=False)[sg[0]]) / g_sg)
         if tk:
             t.outcomes[f"tk:{tk[0]}:{tk[1]}:judged"] += 1
             t.outcomes[f"tk:{tk[0]}:{'single-direction' if ncol == 1 else 'several-columns'}:judged"] += 1
@@ -745,12 +769,13 @@ def layouts(ls):
 
 def _slice(item):
     fam, l, refs, br, n, ncols, var, eq = item[:8]
-    tks = item[8] if len(item) > 8 else [None]            # (kind, dtype) pairs of one designed factor, run consecutively
+    tks = (item[8] if len(item) > 8 else None) or [None]  # (kind, dtype) pairs of one designed factor, run consecutively
+    sg = item[9] if len(item) > 9 else None
     t = Tally()
     for ncol in ncols:
         for tk in tks:
             t.merge(run_case(_SEED, dict(fam=fam, l=l, refs=list(refs), br=br, n=n, ncol=ncol, var=var, eq=list(eq) if eq else None,
-                                         tk=list(tk) if tk else None)))
+                                         tk=list(tk) if tk else None, sg=list(sg) if sg else None)))
     return t
 
 
@@ -843,6 +868,29 @@ def explore(ctx):
         for kind, ncol in tk_pairs(l, len(refs), br, n):
             tk_items.append(("exact", l, refs, br, n, [ncol], var, None, [(kind, dt) for dt in TK_DTYPES]))
     items += tk_items
+
+    # designed singular-value gaps: two consecutive retained singular values 1.5e-3 .. 9e-3 apart (the quantifier's lower end is 1e-3)
+    sg_ncols = [1, 3]
+    ctx.bounds["designed_singular_value_gap (function route)"] = {
+        "what": "the exact-family Hankel matrix is re-assembled from its own singular vectors with sigma_{i+1} = sigma_i (1 - gap) for one pair of "
+                "consecutive singular values that are both retained at order n (i+1 <= n-1): legal by the quantifier (relative gaps >= 1e-3), "
+                "but close to its lower end, where the singular-vector sensitivities are largest; same reference, guards and tolerances",
+        "relative gap": list(SG_GAPS), "order n = ordmax": ns, "br": brs, "layouts": "all 11", "factor_columns": sg_ncols,
+        "pair index i": "every i in 0..n-2" if ctx.thorough else "i = (l + r + br + gap index) mod (n-1), columns rotate likewise",
+    }
+    sg_items = []
+    for (l, refs), br, n in itertools.product(lay, brs, ns):
+        if not feasible(l, len(refs), br, n):
+            continue
+        for gi in range(len(SG_GAPS)):
+            if ctx.thorough:
+                pairs = [(i, nc) for i in range(n - 1) for nc in sg_ncols]
+            else:
+                a = l + len(refs) + br + gi
+                pairs = [(a % (n - 1), sg_ncols[(a // 2) % 2])]
+            for i, nc in pairs:
+                sg_items.append(("exact", l, refs, br, n, [nc], 0, None, None, (i, gi)))
+    items += sg_items
     items.sort(key=lambda it: -(it[5][0] * it[4] ** 2 * (it[3] + 1) ** 2 * it[1] * len(it[2])))
     ctx.pmap(_slice, items, chunksize=1)
     ctx.require("level:1", "level:1e-09", "exact:judged", "data:judged", "factor:holds", "factor:remainder-record-judged", "factor:vec-order-decidable", "additivity:holds", "class:holds", "class:looked-at-algorithm-before-reading:plot_stab",
@@ -854,6 +902,8 @@ def explore(ctx):
                 *[f"tk:{kind}:{w}:judged" for kind in TK_KINDS for w in ("single-direction", "several-columns")],
                 *[f"tk:level:{lv}:{ty}-typed:judged" for lv in ("1", "1e-09") for ty in ("integer", "floating")],
                 "tk/additivity:holds", *[f"tk/order-judged:{n}" for n in ns])
+    ctx.require(*[f"sg:gap:{g:g}:judged" for g in SG_GAPS], "sg:pair-index:first:judged", "sg:pair-index:last:judged", "sg:pair-index:inner:judged",
+                "sg/additivity:holds")
 
 
 def replay(case):
@@ -861,4 +911,5 @@ def replay(case):
     c["var"] = case.get("var", 0)
     c["eq"] = case.get("eq")
     c["tk"] = case.get("tk")
+    c["sg"] = case.get("sg")
     return run_case(case["seed"], c)
